@@ -63,12 +63,17 @@ func c11CycleScenarios(r *vmc.Result) []c11Scenario {
 
 // c11BFS is nsFloodBFS with announcement events restricted to sc.Announcers (nil: all agents).
 func c11BFS(r *vmc.Result, sc c11Scenario, check func(net *nsNet, hist []string)) vmc.BFSStats {
-	if sc.Announcers == nil {
+	if sc.Announcers == nil && len(sc.LateEdges) == 0 {
 		return nsFloodBFS(r, sc.nsFloodScenario, 0, check)
 	}
 	may := map[int]bool{}
 	for _, a := range sc.Announcers {
 		may[a] = true
+	}
+	if sc.Announcers == nil {
+		for a := 0; a < sc.N; a++ {
+			may[a] = true
+		}
 	}
 	base := sc.nsFloodScenario
 	return vmc.BFS(r, func(hist []string) (string, []string) {
@@ -108,6 +113,9 @@ func c11BFS(r *vmc.Result, sc c11Scenario, check func(net *nsNet, hist []string)
 				if !may[i] {
 					continue
 				}
+			}
+			if ev[0] == 'c' && !c11LinkMayComeUp(sc, net, annPer, may) {
+				continue
 			}
 			en = append(en, ev)
 		}
